@@ -68,8 +68,15 @@ def gen_case(rng: Rng) -> dict:
             p["fails"] = rng.random() < 0.08
             ovs.append({"k": k, "provider": p})
         rounds.append({"overrides": ovs, "x": rng.randint(0, 9), "give_y": rng.random() < 0.5, "retries": rng.choice([0, 0, 1, 2])})
-    return {"n": n, "providers": provs, "actor_deps": actor_deps, "rounds": rounds,
+    case = {"n": n, "providers": provs, "actor_deps": actor_deps, "rounds": rounds,
             "converter": rng.choice(["basic", "basic", "pydantic"])}
+    # a catch-all actor (`**kwargs`, Basic converter only): payload keys beyond the declared parameters reach it —
+    # some of them named like a dependency parameter
+    case["varkw"] = case["converter"] == "basic" and rng.random() < 0.3
+    if case["varkw"]:
+        for rd in rounds:
+            rd["extra"] = rng.choice([None, None, "z", "z"] + [q["name"] for q in actor_deps] * 2)
+    return case
 
 
 def sig_of(p: dict) -> dict:
@@ -167,9 +174,9 @@ class World:
             self.D[k] = d
             self.ns[f"D{k}"] = d
 
-    def make_actor(self, actor_deps: list):
+    def make_actor(self, actor_deps: list, varkw: bool = False):
         s = {"po": [], "pk": [{"name": "x", "dflt": False, "dep": False}, {"name": "y", "dflt": True, "dep": False}],
-             "ko": [], "varpos": False, "varkw": False}
+             "ko": [], "varpos": False, "varkw": varkw}
         for q in actor_deps:
             # positional-or-keyword dependency parameters come after `y` (which has a default): give them one too
             s["pk" if q["kind"] == "pk" else "ko"].append({"name": q["name"], "dflt": q["kind"] == "pk", "dep": True})
@@ -183,7 +190,8 @@ class World:
             t = target[q["name"]]
             return "MessageDependency" if t == "msg" else f"Annotated[object, D{t}]"
         deps = ", ".join(f"{q['name']}={q['name']}" for q in actor_deps)
-        body = f"    W.actor_calls.append((dict(x=x, y=y), {{k: W.canon(v) for k, v in dict({deps}).items()}}))"
+        more = ", **kwargs" if varkw else ""
+        body = f"    W.actor_calls.append((dict(x=x, y=y{more}), {{k: W.canon(v) for k, v in dict({deps}).items()}}))"
         src = fn_src("the_actor", s, ann, body, True)
         # `y`'s default must be a plain value for the Pydantic converter
         src = src.replace("y = ('dflt', 'y')", "y: int = 77")
@@ -202,7 +210,7 @@ def val_py(v):
 async def scenario(case: dict) -> dict:
     w = World()
     w.build(case["providers"])
-    actor = w.make_actor(case["actor_deps"])
+    actor = w.make_actor(case["actor_deps"], case.get("varkw", False))
     conn = Connection(InMemoryMessageBroker())
     r = Router()
     r.actor(actor, name="the_actor", queue="q", retry_policy=lambda retry_number=1: timedelta(seconds=1),
@@ -223,6 +231,8 @@ async def scenario(case: dict) -> dict:
         args = {"x": rd["x"]}
         if rd["give_y"]:
             args["y"] = 5
+        if rd.get("extra"):
+            args[rd["extra"]] = "from-payload"
         await Job("the_actor", queue="q", id_=f"j{i}", args=args, retries=rd["retries"], _connection=conn).enqueue()
         await asyncio.sleep(12)
         q = conn.message_broker.queues["q"]
@@ -265,9 +275,22 @@ def check_case(case: dict, o: dict, model: Model, res: Result, label: str) -> No
         if any(str(a[0]) == "error" and str(a[1]) != "failed" for a in ans):
             res.bad("corr", "model could not resolve a generated graph", case=rcase, observed=[sx(a) for a in ans])
             continue
-        if ok:
+        clash = rd.get("extra") in [q["name"] for q in case["actor_deps"]]
+        res.dist["payload-extra:" + ("dependency-name" if clash else str(rd.get("extra")))] += 1
+        if ok and clash:
+            # a payload key named like a dependency parameter (the Lean side of this point: C08 dep_key_collision_fails).
+            # The property speaks about every invocation: whichever happened received the providers' values
+            exp_deps = {q["name"]: val_py(a[1]) for q, a in zip(case["actor_deps"], ans)}
+            wrong = [c for c in ob["actor_calls"] if c[1] != exp_deps]
+            if wrong:
+                res.bad("impl", "an actor invocation received, in a dependency parameter, something else than the value its "
+                                "provider returned (a payload entry of the same name took its place)", case=rcase,
+                        observed=wrong, expected=exp_deps)
+        elif ok:
             exp_deps = {q["name"]: val_py(a[1]) for q, a in zip(case["actor_deps"], ans)}
             exp_payload = {"x": rd["x"], "y": 5 if rd["give_y"] else 77}
+            if rd.get("extra"):
+                exp_payload[rd["extra"]] = "from-payload"
             exp_calls = sorted(f for a in ans for f in (int(x) for x in a[2]))
             shared = len(exp_calls) != len(set(exp_calls))
             res.dist["shared-provider"] += int(shared)
